@@ -396,6 +396,20 @@ pub fn expand_phase(rng: &mut Rng, p: &Phase, lg_k: u8, history: &[u32]) -> Vec<
 
 // ------------------------------------------------------------------------------------------------
 
+/// Multiplicity independence at every prefix: a twin of one of the three sketches is fed each distinct coupon once
+/// (in order of first occurrence); the sketch that also saw every repetition must answer exactly like it, after
+/// every operation -- same estimate and bounds, hence the same mode and the same estimator state.
+fn twin_check(ctx: &mut Ctx, main: &HllSketch, twin: &HllSketch, what: &str) {
+    let (a, b) = (bounds_of(main), bounds_of(twin));
+    ctx.evals(1);
+    if (0..7).any(|j| !rel_close(a[j], b[j], 1e-12)) || main.is_empty() != twin.is_empty() {
+        ctx.violation(
+            "state depends on order or multiplicity",
+            format!("{}: lg_k={} {}: with repetitions est/lb/ub {:?}, each distinct item once {:?}", what, main.lg_config_k(), tname(main.target_type()), a, b),
+        );
+    }
+}
+
 /// In sparse (list / set) mode a dump costs as much as the table is long. For lg_k <= 12 the state is compared
 /// after every operation; above, after each of the first 64 distinct coupons and then whenever the number of
 /// distinct coupons is within 2 of 2^j or 3 * 2^j (the sizes at which the list is promoted and the set grows or is
@@ -419,6 +433,9 @@ fn hook_case(ctx: &mut Ctx, case: &Json) {
     let mut trio = Trio::new(lg_k);
     let mut history: Vec<u32> = vec![];
     let stride = ((1usize << lg_k) / 4).max(1);
+    let ti = (case.u64("seed").unwrap_or(0) % 3) as usize;
+    let mut twin = HllSketch::new(lg_k, TYPES[ti]);
+    let mut twin_ok = true;
     trio.observe(ctx, &model, "fresh", None);
     for (pi, ph) in phases.iter().enumerate() {
         let coupons = expand_phase(&mut rng, ph, lg_k, &history);
@@ -429,6 +446,14 @@ fn hook_case(ctx: &mut Ctx, case: &Json) {
             }
             if history.len() < 4096 {
                 history.push(c);
+            }
+            if novel {
+                twin.verif_update_with_coupon(c);
+            }
+            if twin_ok {
+                let before = ctx.violations.len();
+                twin_check(ctx, &trio.sk[ti], &twin, &format!("phase {} op {}", pi, ci));
+                twin_ok = ctx.violations.len() == before;
             }
             let sparse = trio.prev[0].as_ref().map(|p| p.mode < 2).unwrap_or(true);
             if every_op || (sparse && sparse_observation_due(lg_k, model.coupons.len())) {
@@ -494,6 +519,9 @@ fn public_case(ctx: &mut Ctx, case: &Json) {
     let mut trio = Trio::new(lg_k);
     let stride = ((1usize << lg_k) / 2).max(1);
     let kind = rng.below(3);
+    let ti = (case.u64("seed").unwrap_or(0) % 3) as usize;
+    let mut twin = HllSketch::new(lg_k, TYPES[ti]);
+    let mut twin_ok = true;
     for i in 0..n {
         let x = rng.below(domain); // heavy duplication
         let c = match kind {
@@ -523,6 +551,14 @@ fn public_case(ctx: &mut Ctx, case: &Json) {
             }
         };
         let novel = model.offer(c);
+        if novel {
+            twin.verif_update_with_coupon(c);
+        }
+        if twin_ok {
+            let before = ctx.violations.len();
+            twin_check(ctx, &trio.sk[ti], &twin, &format!("public op {}", i));
+            twin_ok = ctx.violations.len() == before;
+        }
         let sparse = trio.prev[0].as_ref().map(|p| p.mode < 2).unwrap_or(true);
         if every_op || (sparse && sparse_observation_due(lg_k, model.coupons.len())) {
             let single = if every_op || lg_k <= 12 { Some((c, novel)) } else { None };
